@@ -1,6 +1,7 @@
 import DaeVerif.C18.Proofs
 import DaeVerif.C18.History
 import DaeVerif.C18.Names
+import DaeVerif.C18.Normalize
 /-!
 # C18 — property theorems
 
@@ -180,6 +181,195 @@ theorem no_reroute_keeps_outbound (w : World) (ob nOut : Nat) (dst : Dst) (d : S
   simp only [] at hrr
   simp [hrr, hob, Nat.not_le.mpr hlt]
 
+/-- a kernel verdict "route in the control plane" (`OutboundControlPlaneRouting`, also the fallback
+when the routing result is missing), in EVERY mode: the outbound is the routing answer for the
+sniffed name and the target is what `ChooseDialTarget` says for that outbound. -/
+theorem control_plane_routing_dial (w : World) (nOut : Nat) (dst : Dst) (d : Str) (route : Str → Option Nat) :
+    chooseProxyDialer w outboundControlPlaneRouting dst d route nOut =
+      match route d with
+      | none => (w, { outbound := none, target := [], dialIp := false, probeReq := none })
+      | some ob2 =>
+        let r := chooseDialTarget w ob2 dst d
+        if ob2 ≥ nOut then (r.1, { outbound := none, target := [], dialIp := false, probeReq := r.2.probeReq })
+        else (r.1, { outbound := some ob2, target := r.2.target, dialIp := r.2.dialIp, probeReq := r.2.probeReq }) := by
+  unfold chooseProxyDialer
+  rw [ip_target_when_ip_mode_or_no_name_or_reserved w outboundControlPlaneRouting dst d (Or.inr (Or.inr (by decide)))]
+  simp only [Bool.false_eq_true, if_false, if_true]
+  cases route d with
+  | none => rfl
+  | some ob2 =>
+    simp only []
+    rcases chooseDialTarget w ob2 dst d with ⟨w2, c2⟩
+    have : (none <|> c2.probeReq) = c2.probeReq := by cases c2.probeReq <;> rfl
+    simp only [this]
+
+/-- a genuine name stays genuine for the second `ChooseDialTarget` of the same dial. -/
+theorem genuine_stable (w : World) (ob : Nat) (dst : Dst) (d : Str) (hg : genuine w dst d = true) :
+    genuine (chooseDialTarget w ob dst d).1 dst d = true := by
+  have sh := chooseDialTarget_shrinks w ob dst d
+  have sr := by
+    have := decideMode_sameReal w ob dst d
+    exact this
+  have e1 : (chooseDialTarget w ob dst d).1 = (decideMode w ob dst d).1 := by
+    rw [chooseDialTarget_eq]; simp only []; split <;> rfl
+  rw [e1]
+  rw [genuine_iff] at hg ⊢
+  refine ⟨hg.1, ?_⟩
+  rcases hg.2 with ⟨e, he, hlt⟩ | hr
+  · -- a live knowledge entry is never deleted by the lazy deletions
+    left
+    have hh : Holds w (cacheKey d dst.is4) e := Or.inl ⟨e, he, Int.le_refl _⟩
+    have hnow : (decideMode w ob dst d).1.now = w.now := by
+      have a := decideMode_shrinks w ob dst d
+      have b := decideMode_holds (bk := cacheKey d dst.is4) (od := w.now) (Or.inr (Int.le_refl _)) ob dst d
+      -- time is not changed by `decideMode`
+      unfold decideMode
+      split
+      · split
+        · rfl
+        · split
+          · rfl
+          · have k1 : (hasKnowledge w (cacheKey d dst.is4)).1.now = w.now := by
+              unfold hasKnowledge; split
+              · rfl
+              · split
+                · rfl
+                · split <;> rfl
+            rcases hk : hasKnowledge w (cacheKey d dst.is4) with ⟨w1, k⟩
+            rw [hk] at k1
+            simp only []
+            split
+            · exact k1
+            · have k2 := (lookupReal_know w1 d).2
+              rcases hl : lookupReal w1 d with ⟨w2, kn, re⟩
+              rw [hl] at k2
+              simp only []
+              split
+              · split <;> exact k2.trans k1
+              · exact k2.trans k1
+        · rfl
+        · rfl
+      · rfl
+    rcases decideMode_holds hh ob dst d with ⟨e', he', hle⟩ | hpast
+    · exact ⟨e', he', by rw [hnow]; omega⟩
+    · rw [hnow] at hpast; omega
+  · right
+    rw [sr.1]; exact hr
+
+/-- domain mode, genuine name, user outbound: the flow is re-routed by the name (the code does this
+in domain mode too), and the target is the name again for a user outbound, the IP for a built-in one. -/
+theorem domain_mode_genuine_dial (w : World) (ob ob2 nOut : Nat) (dst : Dst) (d : Str)
+    (route : Str → Option Nat)
+    (hm : w.mode = .domain) (hr : isReserved ob = false) (hd : d ≠ []) (hg : genuine w dst d = true)
+    (hrt : route d = some ob2) (hlt : ob2 < nOut) :
+    (chooseProxyDialer w ob dst d route nOut).2.outbound = some ob2 ∧
+    (chooseProxyDialer w ob dst d route nOut).2.target =
+      (if isReserved ob2 then fmtAddrPort dst else (nameTarget d dst.port).1) ∧
+    (chooseProxyDialer w ob dst d route nOut).2.dialIp =
+      (if isReserved ob2 then true else (nameTarget d dst.port).2) := by
+  have first := domain_mode_name_iff_genuine w ob dst d hm hr hd
+  have hg1 := genuine_stable w ob dst d hg
+  have hm1 : (chooseDialTarget w ob dst d).1.mode = .domain := by
+    have e1 : (chooseDialTarget w ob dst d).1 = (decideMode w ob dst d).1 := by
+      rw [chooseDialTarget_eq]; simp only []; split <;> rfl
+    rw [e1, decideMode_domain w ob dst d hm hr hd]
+    have k1 : (hasKnowledge w (cacheKey d dst.is4)).1.mode = w.mode := by
+      unfold hasKnowledge; split
+      · rfl
+      · split
+        · rfl
+        · split <;> rfl
+    have k2 : ∀ w1 : World, (lookupReal w1 d).1.mode = w1.mode := by
+      intro w1; unfold lookupReal; split
+      · rfl
+      · split
+        · split <;> rfl
+        · rfl
+    simp only []
+    split
+    · exact hm
+    · split
+      · rw [k1]; exact hm
+      · split
+        · split <;> (rw [k2, k1]; exact hm)
+        · rw [k2, k1]; exact hm
+  unfold chooseProxyDialer
+  rcases hc : chooseDialTarget w ob dst d with ⟨w1, c1⟩
+  rw [hc] at first hg1 hm1
+  simp only [hg, if_true] at first
+  simp only [] at hg1 hm1
+  have hrr : c1.reroute = true := first.2.2
+  simp only [hrr, if_true, hrt]
+  cases h2 : isReserved ob2 with
+  | true =>
+    rw [ip_target_when_ip_mode_or_no_name_or_reserved w1 ob2 dst d (Or.inr (Or.inr h2))]
+    simp [Nat.not_le.mpr hlt]
+  | false =>
+    have second := domain_mode_name_iff_genuine w1 ob2 dst d hm1 h2 hd
+    rcases hc2 : chooseDialTarget w1 ob2 dst d with ⟨w2, c2⟩
+    rw [hc2] at second
+    simp only [hg1, if_true] at second
+    simp [Nat.not_le.mpr hlt, second.1, second.2.1]
+
+/-- `routeDial` retry (the node refused the first dial with "network unreachable" / "address not
+suitable"): outside domain mode the second attempt makes exactly the same decision — same outbound,
+same target. (In domain mode the second attempt re-reads the caches, which the probe started by the
+first attempt may have filled in the meantime.) -/
+theorem retry_makes_same_decision (w : World) (ob nOut : Nat) (dst : Dst) (d : Str)
+    (route : Str → Option Nat) (settle : World → Option Str → World)
+    (hm : w.mode ≠ .domain) (hs : ∀ w', settle w' none = w') :
+    routeDial w ob dst d route nOut true settle =
+      (w, if (chooseProxyDialer w ob dst d route nOut).2.outbound.isNone
+          then [(chooseProxyDialer w ob dst d route nOut).2]
+          else [(chooseProxyDialer w ob dst d route nOut).2, (chooseProxyDialer w ob dst d route nOut).2]) := by
+  -- outside domain mode `ChooseDialTarget` neither changes the world nor requests a probe
+  have cdt : ∀ ob', (chooseDialTarget w ob' dst d).1 = w ∧ (chooseDialTarget w ob' dst d).2.probeReq = none := by
+    intro ob'
+    by_cases h : w.mode = .ip ∨ d = [] ∨ isReserved ob' = true
+    · rw [ip_target_when_ip_mode_or_no_name_or_reserved w ob' dst d h]; exact ⟨rfl, rfl⟩
+    · have hd : d ≠ [] := fun e => h (Or.inr (Or.inl e))
+      have hr : isReserved ob' = false := by cases hh : isReserved ob' <;> simp_all
+      cases hmode : w.mode with
+      | ip => exact absurd (Or.inl hmode) h
+      | domain => exact absurd hmode hm
+      | domainPlus => rw [domain_plus_name_unconditionally w ob' dst d hmode hr hd]; exact ⟨rfl, rfl⟩
+      | domainCao => rw [domain_cao_name_and_reroute w ob' dst d hmode hr hd]; exact ⟨rfl, rfl⟩
+  have fin : ∀ (ob' : Nat) (c : Choice), c.probeReq = none →
+      (if ob' ≥ nOut then (w, ({ outbound := none, target := [], dialIp := false, probeReq := c.probeReq } : DialOut))
+       else (w, { outbound := some ob', target := c.target, dialIp := c.dialIp, probeReq := c.probeReq })).1 = w ∧
+      (if ob' ≥ nOut then (w, ({ outbound := none, target := [], dialIp := false, probeReq := c.probeReq } : DialOut))
+       else (w, { outbound := some ob', target := c.target, dialIp := c.dialIp, probeReq := c.probeReq })).2.probeReq = none := by
+    intro ob' c hp
+    split <;> exact ⟨rfl, hp⟩
+  have cpd : (chooseProxyDialer w ob dst d route nOut).1 = w ∧
+      (chooseProxyDialer w ob dst d route nOut).2.probeReq = none := by
+    unfold chooseProxyDialer
+    have c1 := cdt ob
+    rcases hc : chooseDialTarget w ob dst d with ⟨w1, c1'⟩
+    rw [hc] at c1
+    simp only [] at c1
+    obtain ⟨rfl, hp1⟩ := c1
+    simp only []
+    by_cases hre : (if c1'.reroute = true then outboundControlPlaneRouting else ob) = outboundControlPlaneRouting
+    · rw [if_pos hre]
+      cases hrt : route d with
+      | none => exact ⟨rfl, hp1⟩
+      | some ob2 =>
+        have c2 := cdt ob2
+        simp only [hp1, c2.1, c2.2]
+        split <;> exact ⟨rfl, rfl⟩
+    · rw [if_neg hre]
+      exact fin _ c1' hp1
+  unfold routeDial
+  rcases hcp : chooseProxyDialer w ob dst d route nOut with ⟨w1, o1⟩
+  rw [hcp] at cpd
+  simp only [] at cpd
+  obtain ⟨rfl, hp⟩ := cpd
+  simp only [hp, hs, Bool.not_true, Bool.or_false]
+  cases ho : o1.outbound.isNone with
+  | true => simp
+  | false => simp [hcp, hp, hs]
+
 example :
     let route : Str → Option Nat := fun n => if n = "re.test".toList then some 3 else some 0
     (chooseProxyDialer { mode := .domainCao } 2 ⟨true, 0x01020304, 443⟩ "re.test".toList route 5).2
@@ -266,6 +456,33 @@ example : parseAddrOk "fe80::1%]x".toList = true := by decide
 
 /-! ### the sniffer's own normalisation (`sniffing.NormalizeDomain`), end to end -/
 
+/-- **Every** bracket-free raw value (names in any case, `name:port`, `name.:port`, IPv4, bare or
+zoned IPv6 literals, garbage with any number of colons …): after `NormalizeDomain` no port and no
+bracket is left. -/
+theorem sniffed_value_no_port_left (raw : Str)
+    (hb : hasChar '[' (preNorm raw) = false ∧ hasChar ']' (preNorm raw) = false) :
+    splitHostPort (normalizeDomain raw) = none ∧
+    hasChar '[' (normalizeDomain raw) = false ∧ hasChar ']' (normalizeDomain raw) = false :=
+  normalize_leaves_no_port hb
+
+/-- … hence the target built from it is exactly `JoinHostPort(value, destination port)`: the host
+part is the (non-empty, when the name row applies) normalised value itself, the port part is the
+decimal destination port; the dial is an IP dial exactly when the value is an IP literal. The
+carried-port branch of `nameTarget` (host and port unchecked) is unreachable for sniffer-produced
+values; it serves callers that pass an un-normalised value (`RouteDialTcp`). -/
+theorem sniffed_value_target (raw : Str) (p : Nat)
+    (hb : hasChar '[' (preNorm raw) = false ∧ hasChar ']' (preNorm raw) = false) :
+    nameTarget (normalizeDomain raw) p =
+      (joinHostPort (normalizeDomain raw) (itoa p), parseAddrOk (normalizeDomain raw)) ∧
+    splitHostPort (nameTarget (normalizeDomain raw) p).1 = some (normalizeDomain raw, itoa p) :=
+  normalized_target p hb
+
+example : normalizeDomain "2606:4700::1111%ETH0".toList = "2606:4700::1111%eth0".toList ∧
+    (nameTarget (normalizeDomain "2606:4700::1111%ETH0".toList) 443) = ("[2606:4700::1111%eth0]:443".toList, true) := by decide
+example : normalizeDomain "A.Test.:81".toList = "a.test.".toList := by decide
+-- with brackets inside the claim fails: a port survives
+example : normalizeDomain "[a.test:81]:80".toList = "a.test:81".toList := by decide
+
 /-- plain names: lower-cased, surrounding space and one trailing dot removed — and then the
 target is `name:port`. -/
 theorem sniffed_plain_name (raw : Str) (p : Nat) (hp : Plain (preNorm raw)) :
@@ -337,26 +554,53 @@ Histories are lists of `Event`s (mode / resolver-count changes, clock advances, 
 dae, cache removals, knowledge queries, `ChooseDialTarget` calls, completed probes) applied by
 `run`; `trace w es` pairs every event with the world it was applied in. -/
 
-/-- `HasDnsKnowledge` answers true **only** between a resolution through dae of that (name, type)
-family and the original deadline (`now + ttl` at the time) of that resolution. -/
+/-- `HasDnsKnowledge` answers true **only** between an event that stored a cache entry of that key
+family — a resolution through dae (original deadline = its time + TTL) or an entry carried over by
+`RestoreReloadCache` with its original deadline — and that original deadline. Holds for every
+history over the full writer alphabet (updates, removals, evictions, family removals, restores,
+store close). -/
 theorem knowledge_only_from_resolution_within_ttl (w0 : World)
     (hc : w0.cache = []) (hk : w0.know = []) (hr : w0.realSet = []) (es : List Event)
     (name : Str) (is4 : Bool)
     (h : (hasKnowledge (run w0 es) (cacheKey name is4)).2 = true) :
-    ∃ x ∈ trace w0 es, ∃ host f ttl key,
-      x.2 = .dnsUpdate host f ttl key ∧ (dnsUpdate x.1 host f ttl key).2 = true ∧
-      baseKeyOf (updateKey host f key) = cacheKey name is4 ∧
-      x.1.now ≤ (run w0 es).now ∧ (run w0 es).now < x.1.now + ttl := by
+    ∃ x ∈ trace w0 es, ∃ ck od, Stored x ck od ∧ baseKeyOf ck = cacheKey name is4 ∧
+      x.1.now ≤ (run w0 es).now ∧ (run w0 es).now < od := by
   obtain ⟨_, e, he, hlt⟩ := (hasKnowledge_true_iff _ _).1 h
   have inv := (Inv.init w0 hc hk hr).run es
   simp only [List.nil_append] at inv
-  obtain ⟨x, hx, ck, ⟨host, f, ttl, key, h1, h2, h3, h4⟩, hb, hn⟩ := inv.know _ _ (Assoc.mem_of_get he)
-  exact ⟨x, hx, host, f, ttl, key, h1, h2, by rw [h3]; exact hb, hn, by rw [← h4]; exact hlt⟩
+  obtain ⟨x, hx, ck, hs, hb, hn⟩ := inv.know _ _ (Assoc.mem_of_get he)
+  exact ⟨x, hx, ck, e, hs, hb, hn, hlt⟩
+
+/-- … and in a well-keyed history without restores the witness is a resolution **of that very name
+and address family**: same canonical (lower-cased, fully qualified) name, query type A for an IPv4
+destination and AAAA otherwise. (`WellKeyed`: every update is stored under the key family of its own
+question — what all production callers do, `wellKeyed_of_production`. Without it a scoped key
+`victim.test.1|x` passed with another host would count for `victim.test`.) -/
+theorem knowledge_names_the_resolved_name (w0 : World)
+    (hc : w0.cache = []) (hk : w0.know = []) (hr : w0.realSet = []) (es : List Event)
+    (hwk : ∀ e ∈ es, WellKeyed e) (hnr : ∀ e ∈ es, ∀ l, e ≠ .dnsRestore l)
+    (name : Str) (is4 : Bool)
+    (h : (hasKnowledge (run w0 es) (cacheKey name is4)).2 = true) :
+    ∃ x ∈ trace w0 es, ∃ host q ttl key,
+      x.2 = .dnsUpdate host q ttl key ∧ (dnsUpdate x.1 host q ttl key).2 = true ∧
+      canonicalName (fqdnOf host) = canonicalName name ∧ itoa q = qtypeStr is4 ∧
+      x.1.now ≤ (run w0 es).now ∧ (run w0 es).now < x.1.now + ttl := by
+  obtain ⟨x, hx, ck, od, hs, hb, hn, hlt⟩ :=
+    knowledge_only_from_resolution_within_ttl w0 hc hk hr es name is4 h
+  have hev := mem_trace_event w0 es x hx
+  rcases hs with ⟨host, q, ttl, key, h1, h2, h3, h4⟩ | ⟨l, h1, _⟩
+  · have wk := hwk _ hev
+    rw [h1] at wk
+    have wk' : baseKeyOf (updateKey host q key) = cacheKeyQ (fqdnOf host) q := wk
+    rw [h3, hb] at wk'
+    obtain ⟨e1, e2⟩ := cacheKeyQ_eq_cacheKey (fqdnOf host) name q is4 wk'.symm
+    exact ⟨x, hx, host, q, ttl, key, h1, h2, e1, e2, hn, by rw [← h4]; exact hlt⟩
+  · exact absurd h1 (hnr _ hev l)
 
 /-- Conversely, after a resolution through dae the answer stays true until the original deadline,
 whatever else happens — except removals of cache entries of the same family (those recompute the
 entry from the remaining scoped entries, `syncDnsKnowledgeLocked`). -/
-theorem knowledge_holds_until_original_ttl (w : World) (host : Str) (is4 : Bool) (ttl : Int) (key : Str)
+theorem knowledge_holds_until_original_ttl (w : World) (host : Str) (is4 : Nat) (ttl : Int) (key : Str)
     (es : List Event)
     (hu : (dnsUpdate w host is4 ttl key).2 = true)
     (hne : baseKeyOf (updateKey host is4 key) ≠ [])
@@ -369,12 +613,15 @@ theorem knowledge_holds_until_original_ttl (w : World) (host : Str) (is4 : Bool)
   · omega
 
 -- the key under which `ChooseDialTarget` asks is the key under which `UpdateDnsCacheTtl` remembers
-example : baseKeyOf (updateKey "Example.COM".toList true []) = cacheKey "example.com".toList true := by decide
-example : baseKeyOf (updateKey "example.com.".toList false ("example.com.28|asis@1.1.1.1:53".toList))
+example : baseKeyOf (updateKey "Example.COM".toList 1 []) = cacheKey "example.com".toList true := by decide
+example : baseKeyOf (updateKey "example.com.".toList 28 ("example.com.28|asis@1.1.1.1:53".toList))
     = cacheKey "EXAMPLE.com".toList false := by decide
+-- why `WellKeyed` is needed: a foreign host under a victim's scoped key
+example : (hasKnowledge (run {} [Event.dnsUpdate "evil.test".toList 1 600000000000 "victim.test.1|x".toList])
+    (cacheKey "victim.test".toList true)).2 = true := by decide
 -- non-vacuity of both theorems on a concrete history
 example :
-    let es := [Event.dnsUpdate "a.test".toList true 2000000000 [], Event.advance 1999999999]
+    let es := [Event.dnsUpdate "a.test".toList 1 2000000000 [], Event.advance 1999999999]
     (hasKnowledge (run {} es) (cacheKey "a.test".toList true)).2 = true ∧
     (hasKnowledge (run {} (es ++ [Event.advance 1])) (cacheKey "a.test".toList true)).2 = false := by decide
 
@@ -391,6 +638,32 @@ example : cacheKey "WWW.Example.COM".toList true = cacheKey "www.example.com".to
 -- trailing dot: same key with and without it
 example : cacheKey "www.example.com.".toList false = cacheKey "www.example.com".toList false := by decide
 
+/-! ### which DNS messages count as "resolved through dae" (`NormalizeAndCacheDnsResp_`) -/
+
+/-- a message that is not a response, has no question, or whose rcode is not NOERROR leaves cache
+and knowledge untouched. -/
+theorem dns_response_ignored_unless_noerror (w : World) (isResp hasQ rcodeOk : Bool) (qname : Str) (qtype : Nat)
+    (ttl : Option Nat) (key : Str) (h : isResp = false ∨ hasQ = false ∨ rcodeOk = false) :
+    dnsResp w isResp hasQ rcodeOk qname qtype ttl key = (w, false) := by
+  unfold dnsResp
+  rcases h with h | h | h <;> simp [h]
+
+/-- a NOERROR response is a resolution with the TTL of its first answer — and a NOERROR response
+with an EMPTY answer section (NODATA) also is one, for `minFirefoxCacheTtl` = 120 s (the code's
+comment "Has A/AAAA records. It is a real domain." is not what is tested). Recorded as the code has it. -/
+theorem dns_noerror_is_a_resolution (w : World) (qname : Str) (qtype : Nat) (key : Str) :
+    (∀ t : Nat, t ≤ 31536000 →
+      dnsResp w true true true qname qtype (some t) key = dnsUpdate w qname qtype ((t : Int) * 1000000000) key) ∧
+    dnsResp w true true true qname qtype none key = dnsUpdate w qname qtype 120000000000 key := by
+  unfold dnsResp minFirefoxCacheTtl
+  refine ⟨fun t ht => ?_, ?_⟩
+  · have : ¬ ((31536000 : Int) < (t : Int)) := by omega
+    simp [this]
+  · simp
+
+example : (hasKnowledge (dnsResp {} true true true "nodata.test.".toList 1 none []).1 (cacheKey "nodata.test".toList true)).2 = true := by decide
+example : (hasKnowledge (dnsResp {} true true false "nx.test.".toList 1 none []).1 (cacheKey "nx.test".toList true)).2 = false := by decide
+
 /-- the verified set only ever contains names for which a probe completed with an address from
 some bootstrap resolver. -/
 theorem real_set_only_from_positive_probe (w0 : World)
@@ -404,17 +677,23 @@ theorem real_set_only_from_positive_probe (w0 : World)
   obtain ⟨x, hx, hp⟩ := inv.real d h
   exact ⟨x, hx, hp⟩
 
+/-- the verified set never holds more names than the filter behind it is sized for
+(`realDomainSetCapacity`): within that capacity the Bloom filter's false-positive rate is its design
+rate (≤ 0.001), which is the one approximation between `realSet` and the code. -/
+theorem real_set_bounded (w0 : World) (hr : w0.realSet = []) (ha : w0.realAdds = 0) (es : List Event) :
+    (run w0 es).realSet.length ≤ (run w0 es).realAdds ∧ (run w0 es).realAdds ≤ realCap := by
+  have : Bounded w0 := by unfold Bounded; rw [hr, ha]; simp [realCap]
+  exact this.run es
+
 /-- Putting it together: in domain mode a name is sent to the proxy only if, earlier in the
-history, it was resolved through dae (same family as the destination, original TTL not yet over)
-or verified by a positive probe. -/
+history, an entry of its (name, family) key was stored by a resolution through dae or carried over
+by a reload, original deadline not yet over — or the name was verified by a positive probe. -/
 theorem genuine_name_has_witness (w0 : World)
     (hc : w0.cache = []) (hk : w0.know = []) (hr : w0.realSet = []) (es : List Event)
     (dst : Dst) (d : Str) (h : genuine (run w0 es) dst d = true) :
     isIPLike d = false ∧
-    ((∃ x ∈ trace w0 es, ∃ host f ttl key,
-        x.2 = .dnsUpdate host f ttl key ∧ (dnsUpdate x.1 host f ttl key).2 = true ∧
-        baseKeyOf (updateKey host f key) = cacheKey d dst.is4 ∧
-        x.1.now ≤ (run w0 es).now ∧ (run w0 es).now < x.1.now + ttl) ∨
+    ((∃ x ∈ trace w0 es, ∃ ck od, Stored x ck od ∧ baseKeyOf ck = cacheKey d dst.is4 ∧
+        x.1.now ≤ (run w0 es).now ∧ (run w0 es).now < od) ∨
      (∃ x ∈ trace w0 es, ∃ ans, x.2 = .probeDone d ans ∧ x.1.nboot ≠ 0 ∧
         ((probeResult x.1 ans).ip4 || (probeResult x.1 ans).ip6) = true ∧
         ((probeResult x.1 ans).err4 && (probeResult x.1 ans).err6) = false)) := by
